@@ -42,6 +42,8 @@ mod pty {
         Write(usize, usize),
         /// `execute` of command number n of `command(n)`
         Exec(usize),
+        /// `execute(TerminalCommand::Raw(raw_bytes(len, tag)))`
+        Raw(usize, usize),
         Flush,
         /// `poll(Some(ms))`
         Poll(u64),
@@ -61,6 +63,7 @@ mod pty {
             match self {
                 TOp::Write(l, t) => format!("W:{l}:{t}"),
                 TOp::Exec(n) => format!("x:{n}"),
+                TOp::Raw(l, t) => format!("X:{l}:{t}"),
                 TOp::Flush => "f".into(),
                 TOp::Poll(ms) => format!("p:{ms}"),
                 TOp::Drop => "d".into(),
@@ -81,6 +84,7 @@ mod pty {
                 ["e", n] => TOp::ImageErase(n.parse().ok()?),
                 ["W", l, g] => TOp::Write(l.parse().ok()?, g.parse().ok()?),
                 ["x", n] => TOp::Exec(n.parse().ok()?),
+                ["X", l, g] => TOp::Raw(l.parse().ok()?, g.parse().ok()?),
                 ["p", ms] => TOp::Poll(ms.parse().ok()?),
                 _ => return None,
             })
@@ -131,18 +135,62 @@ mod pty {
         (0..len).map(|i| (32 + (tag + i) % 95) as u8).collect()
     }
 
-    /// commands with stateless encodings that never contain the DA1 query
+    /// commands that never contain the DA1 / size query; `Face` / `FaceModify` go through the encoder's internal
+    /// chunk buffer, `DecModeSet` / `Title` through `write!`
     fn command(n: usize) -> TerminalCommand {
-        match n % 8 {
-            0 => TerminalCommand::CursorTo(Position { row: n / 8 % 50, col: n % 131 }),
-            1 => TerminalCommand::Char(char::from_u32(0x41 + (n as u32 / 8) % 26).unwrap()),
+        use surf_n_term::{DecMode, Face, FaceModify};
+        match n % 11 {
+            0 => TerminalCommand::CursorTo(Position { row: n / 11 % 50, col: n % 131 }),
+            1 => TerminalCommand::Char(char::from_u32(0x41 + (n as u32 / 11) % 26).unwrap()),
             2 => TerminalCommand::EraseLine,
             3 => TerminalCommand::CursorSave,
             4 => TerminalCommand::CursorRestore,
-            5 => TerminalCommand::EraseChars(n / 8 % 9 + 1),
-            6 => TerminalCommand::Raw(format!("<raw {n}>").into_bytes()),
-            _ => TerminalCommand::Title(format!("t{n}")),
+            5 => TerminalCommand::EraseChars(n / 11 % 9 + 1),
+            6 => TerminalCommand::Title(format!("t{n}")),
+            7 => TerminalCommand::Face(
+                ["fg=#aabbcc,bg=#112233", "fg=#010203,bold", "bg=#fefefe,italic,underline", "bold,italic"][n / 11 % 4].parse::<Face>().unwrap_or_default(),
+            ),
+            8 => TerminalCommand::FaceModify(match n / 11 % 4 {
+                0 => FaceModify { fg: Some(surf_n_term::RGBA::new(0x44, 0x55, 0x66, 255)), ..Default::default() },
+                1 => FaceModify { bold: Some(true), ..Default::default() },
+                2 => FaceModify { underline: Some(surf_n_term::UnderlineStyle::Curly), italic: Some(false), ..Default::default() },
+                _ => FaceModify { reset: true, bg: Some(surf_n_term::RGBA::new(10, 11, 12, 255)), ..Default::default() },
+            }),
+            9 => TerminalCommand::DecModeSet { enable: n / 11 % 2 == 0, mode: [DecMode::AutoWrap, DecMode::VisibleCursor, DecMode::MouseSGR][n / 11 % 3] },
+            _ => TerminalCommand::Char(['é', 'ж', '→', '😀', 'x'][n / 11 % 5]),
         }
+    }
+
+    /// Encodings written down here, independently of the crate's encoder, for the commands whose byte form is
+    /// fixed by ECMA-48 / DEC. They are the expectation of the stream oracle for these commands (so an encoder
+    /// that withholds, buffers or reorders output is seen by C16); a disagreement with the crate's encoder on
+    /// the *spelling* is C05's business: it is recorded in the evidence and the encoder's spelling is used.
+    fn command_table(n: usize) -> Option<Vec<u8>> {
+        match n % 11 {
+            0 => Some(format!("\x1b[{};{}H", n / 11 % 50 + 1, n % 131 + 1).into_bytes()),
+            1 => Some(vec![(0x41 + (n / 11) % 26) as u8]),
+            2 => Some(b"\x1b[2K".to_vec()),
+            3 => Some(b"\x1b7".to_vec()),
+            4 => Some(b"\x1b8".to_vec()),
+            10 => Some(["é", "ж", "→", "😀", "x"][n / 11 % 5].as_bytes().to_vec()),
+            _ => None,
+        }
+    }
+
+    /// payload of a `TerminalCommand::Raw`: chosen by the harness, so the expectation does not pass through the
+    /// crate's encoder at all; printable bytes with `ESC 7` / `ESC 8` sprinkled in
+    pub fn raw_bytes(len: usize, tag: usize) -> Vec<u8> {
+        let mut v = Vec::with_capacity(len);
+        let mut i = 0;
+        while v.len() < len {
+            if i % 29 == 7 && v.len() + 2 <= len {
+                v.extend_from_slice(if i % 2 == 0 { b"\x1b8" } else { b"\x1b7" });
+            } else {
+                v.push((33 + (tag * 7 + i) % 90) as u8);
+            }
+            i += 1;
+        }
+        v
     }
 
     struct Shared {
@@ -320,13 +368,25 @@ mod pty {
                     break;
                 }
             }
-            let s0 = term.stats().send;
-            while self.shared.count.load(Ordering::SeqCst) < s0 && t0.elapsed() < Duration::from_secs(40) {
+            // the number of bytes the constructor has sent is taken from what the master RECEIVED once the line is
+            // quiet, not from the crate's own accounting (`stats().send`), which is cross-checked against it
+            let stats0 = term.stats().send;
+            self.shared.idle.store(0, Ordering::SeqCst);
+            loop {
+                let c = self.shared.count.load(Ordering::SeqCst);
+                if c == stats0 || self.shared.idle.load(Ordering::SeqCst) >= 8 || t0.elapsed() > Duration::from_secs(40) {
+                    break;
+                }
                 std::thread::sleep(Duration::from_millis(1));
             }
-            if term.frames_pending() > 0 || self.shared.count.load(Ordering::SeqCst) != s0 {
+            if term.frames_pending() > 0 {
                 drop(term);
                 return Err("setup-not-drained".into());
+            }
+            let s0 = self.shared.count.load(Ordering::SeqCst);
+            if s0 != stats0 {
+                drop(term);
+                return Err(format!("stats-send-differs-at-setup:{s0}:{stats0}"));
             }
             let escape_mode = term.size().map(|s| s.pixels.height > 0 && s.pixels.width > 0).unwrap_or(false);
             if escape_mode != self.shared.esc {
@@ -358,6 +418,8 @@ mod pty {
         pub tty_writes: usize,
         pub dropped_payloads: usize,
         pub executed: Vec<String>,
+        /// commands whose encoder output equals / differs from the harness' own table of encodings
+        pub table: (usize, usize),
     }
 
     enum Evt {
@@ -501,7 +563,7 @@ mod pty {
     pub fn run_session(ops: &[TOp], profile: u64, peer_seed: u64, esc: bool, end_by_drop: bool, want_trace: bool) -> SessionOutcome {
         let mut outcome = SessionOutcome {
             inconclusive: None, failure: None, trace: None, bytes: 0, short_writes: 0, eagain: 0, tty_writes: 0,
-            dropped_payloads: 0, executed: Vec::new(),
+            dropped_payloads: 0, executed: Vec::new(), table: (0, 0),
         };
         let with_images = ops.iter().any(|o| matches!(o, TOp::Image(_) | TOp::ImageErase(_)));
         let (rig, slave) = match Rig::open(profile, peer_seed, esc, !with_images, 50, 132) {
@@ -519,6 +581,11 @@ mod pty {
         };
         let (mut term, s0) = match booted {
             Ok(x) => x,
+            Err(e) if e.starts_with("stats-send-differs") => {
+                outcome.failure = Some(("stats().send differs from the number of bytes the master received while the terminal was set up".into(),
+                    "received:stats equal".into(), e));
+                return finish(outcome);
+            }
             Err(e) => {
                 outcome.inconclusive = Some(e);
                 return finish(outcome);
@@ -550,6 +617,14 @@ mod pty {
         let mut queue: VecDeque<TOp> = ops.iter().cloned().collect();
         let mut draining = false;
         let mut poll_error: Option<String> = None;
+        let mut op_index = 0usize;
+        let mut table_agree = 0usize;
+        let mut table_differ = 0usize;
+        // bytes that have certainly started transmission: the larger of the crate's own count and what the master
+        // has received (the latter does not depend on the crate)
+        let sent_now = |term: &SystemTerminal, shared: &Shared| {
+            (term.stats().send - s0).max(shared.count.load(Ordering::SeqCst).saturating_sub(s0))
+        };
         loop {
             let op = match queue.pop_front() {
                 Some(op) => op,
@@ -571,6 +646,8 @@ mod pty {
                 outcome.executed.push(op.token());
             }
             let frames_before = term.frames_pending();
+            op_index += 1;
+            let path = (op_index + ops.len()) % 3;
             let step = guarded(|| match &op {
                 TOp::Pause => shared.pause.store(true, Ordering::SeqCst),
                 TOp::Resume => shared.pause.store(false, Ordering::SeqCst),
@@ -594,26 +671,73 @@ mod pty {
                     events.push(Evt::Payload(payloads.len()));
                     payloads.push(p.clone());
                     req.push_str(&format!(" W:{l}:{t}"));
-                    // `write`, not `write_all`: an empty buffer must still reach `Write::write` (it creates a chunk)
-                    let n = term.write(&p).unwrap();
-                    assert_eq!(n, p.len());
+                    // three ways to the same `Write::write`: a single `write` (an empty buffer must still reach it: it
+                    // creates a chunk), `write_all`, `write!` — directly, through `&mut T` and through `dyn Terminal`
+                    match (path, p.is_empty()) {
+                        (0, _) | (_, true) => {
+                            let n = term.write(&p).unwrap();
+                            assert_eq!(n, p.len());
+                        }
+                        (1, _) => (&mut term).write_all(&p).unwrap(),
+                        _ => write!(term.dyn_ref(), "{}", std::str::from_utf8(&p).unwrap()).unwrap(),
+                    }
+                }
+                TOp::Raw(l, t) => {
+                    // expectation: the raw bytes themselves (nothing of the crate in between)
+                    let p = raw_bytes(*l, *t);
+                    events.push(Evt::Payload(payloads.len()));
+                    payloads.push(p.clone());
+                    if !p.is_empty() {
+                        req.push_str(&format!(" w:{}", hex(&p)));
+                    }
+                    match path {
+                        0 => term.execute(TerminalCommand::Raw(p)).unwrap(),
+                        1 if p.len() >= 2 => {
+                            let (a, b) = p.split_at(p.len() / 2);
+                            term.execute_many([TerminalCommand::Raw(a.to_vec()), TerminalCommand::Raw(b.to_vec())]).unwrap()
+                        }
+                        1 => Terminal::execute(&mut &mut term, TerminalCommand::Raw(p)).unwrap(),
+                        _ => term.dyn_ref().execute(TerminalCommand::Raw(p)).unwrap(),
+                    }
                 }
                 TOp::Exec(n) => {
                     let mut p = Vec::new();
                     enc.encode(&mut p, command(*n)).unwrap();
-                    req.push_str(&format!(" w:{}", hex(&p)));
+                    if let Some(t) = command_table(*n) {
+                        if t == p {
+                            table_agree += 1;
+                        } else {
+                            table_differ += 1; // spelling differs: C05's subject; keep the encoder's bytes
+                        }
+                    }
+                    if !p.is_empty() {
+                        req.push_str(&format!(" w:{}", hex(&p)));
+                    }
                     events.push(Evt::Payload(payloads.len()));
                     payloads.push(p);
-                    term.execute(command(*n)).unwrap();
+                    match path {
+                        0 => term.execute(command(*n)).unwrap(),
+                        1 => Terminal::execute(&mut &mut term, command(*n)).unwrap(),
+                        _ => term.dyn_ref().execute(command(*n)).unwrap(),
+                    }
                 }
                 TOp::Flush => {
                     events.push(Evt::Mark);
                     req.push_str(" f");
-                    term.flush().unwrap();
+                    match path {
+                        0 => term.flush().unwrap(),
+                        1 => (&mut term).flush().unwrap(),
+                        _ => term.dyn_ref().flush().unwrap(),
+                    }
                 }
                 TOp::Poll(ms) => {
                     events.push(Evt::Mark);
-                    if let Err(e) = term.poll(Some(Duration::from_millis(*ms))) {
+                    let r = match path {
+                        0 => term.poll(Some(Duration::from_millis(*ms))),
+                        1 => Terminal::poll(&mut &mut term, Some(Duration::from_millis(*ms))),
+                        _ => term.dyn_ref().poll(Some(Duration::from_millis(*ms))),
+                    };
+                    if let Err(e) = r {
                         poll_error = Some(format!("{e:?}"));
                     }
                     let tr = verif_c16::take_trace();
@@ -633,14 +757,18 @@ mod pty {
                     }
                 }
                 TOp::Drop => {
-                    events.push(Evt::Drop(term.stats().send - s0));
+                    events.push(Evt::Drop(sent_now(&term, &shared)));
                     if esc {
                         // the library queues its size query again, behind what the cut kept
                         events.push(Evt::LibPayload(payloads.len()));
                         payloads.push(SIZE_QUERY.to_vec());
                     }
                     req.push_str(" d");
-                    term.frames_drop();
+                    match path {
+                        0 => term.frames_drop(),
+                        1 => Terminal::frames_drop(&mut &mut term),
+                        _ => term.dyn_ref().frames_drop(),
+                    }
                 }
             });
             if step.is_err() {
@@ -663,7 +791,8 @@ mod pty {
                     format!("frames_pending <= {allowed}"), format!("{frames_after}"),
                 ));
             }
-            if !matches!(op, TOp::Pause | TOp::Resume) && !(matches!(op, TOp::Image(_) | TOp::ImageErase(_)) && payloads.last().map(|p| p.is_empty()).unwrap_or(false)) {
+            outcome.table = (table_agree, table_differ);
+            if !matches!(op, TOp::Pause | TOp::Resume) && !(matches!(op, TOp::Image(_) | TOp::ImageErase(_) | TOp::Exec(_) | TOp::Raw(..)) && payloads.last().map(|p| p.is_empty()).unwrap_or(false)) {
                 obs.push(format!("{}/{}/{}", term.stats().send - s0, frames_after, verif_c16::queue_len(&term)));
             }
             if poll_error.is_some() {
@@ -675,7 +804,8 @@ mod pty {
         }
         if end_by_drop && outcome.inconclusive.is_none() {
             // ---- drop the terminal with whatever is queued / in flight -------------------------------------
-            let sent = term.stats().send - s0;
+            let sent_stats = term.stats().send - s0;
+            let sent = sent_now(&term, &shared);
             let qlen = verif_c16::queue_len(&term);
             let closing = closing.unwrap();
             events.push(Evt::Drop(sent));
@@ -712,8 +842,8 @@ mod pty {
                     }
                 }
             }
-            if want_trace && outcome.inconclusive.is_none() && outcome.failure.is_none() && got.len() >= sent {
-                obs.push(format!("end {}/{}", fnv(&got[..sent]), qlen));
+            if want_trace && outcome.inconclusive.is_none() && outcome.failure.is_none() && got.len() >= sent_stats {
+                obs.push(format!("end {}/{}", fnv(&got[..sent_stats]), qlen));
                 outcome.trace = Some((req, obs.join(" ")));
             }
             return finish(outcome);
@@ -825,8 +955,11 @@ mod pty {
                     }
                 };
                 TOp::Write(len, tag)
-            } else if r < 47 {
+            } else if r < 43 {
                 TOp::Exec(rng.below(4000) as usize)
+            } else if r < 47 {
+                tag += 1;
+                TOp::Raw(*rng.pick(&[0usize, 1, 2, 3, 40, 700, 4096, 6000]) + rng.below(3) as usize, tag)
             } else if r < 52 {
                 if rng.chance(3, 4) { TOp::Image(rng.below(12) as usize) } else { TOp::ImageErase(rng.below(12) as usize) }
             } else if r < 54 {
@@ -870,6 +1003,11 @@ mod pty {
         }
         if let Some((req, ans)) = &o.trace {
             out.corr(req, ans);
+        }
+        if o.table.1 > 0 {
+            out.hist("pty:encoder-spelling-differs-from-harness-table(see C05)");
+        } else if o.table.0 > 0 {
+            out.hist("pty:sessions-with-commands-checked-against-harness-table");
         }
         out.sample(json!({"pty_session": o.executed.len(), "bytes": o.bytes, "tty_writes": o.tty_writes,
             "short_writes": o.short_writes, "eagain": o.eagain, "dropped_payloads": o.dropped_payloads}));
@@ -1016,6 +1154,7 @@ mod pty {
         pub drops: usize,
         pub max_pending: usize,
         pub bytes: usize,
+        pub brackets_as_known: bool,
         pub params: Value,
     }
 
@@ -1108,6 +1247,7 @@ mod pty {
         use surf_n_term::{Cell, Face, SurfaceMut, TerminalAction, DecMode};
         let mut o = RenderOutcome {
             inconclusive: None, failure: None, frames_drawn: 0, frames_received: 0, drops: 0, max_pending: 0, bytes: 0,
+            brackets_as_known: true,
             params: json!({"stage": "render", "frames": n_frames, "rows": rows, "cols": cols, "stalled_peer": stall,
                 "size_from_escape": esc, "peer_seed": peer_seed.to_string()}),
         };
@@ -1132,6 +1272,9 @@ mod pty {
         let mut off = Vec::new();
         enc.encode(&mut on, TerminalCommand::DecModeSet { enable: true, mode: DecMode::SynchronizedOutput }).unwrap();
         enc.encode(&mut off, TerminalCommand::DecModeSet { enable: false, mode: DecMode::SynchronizedOutput }).unwrap();
+        // the frame brackets are taken from the crate's encoder (their spelling is C05's subject); recorded when
+        // they are not the DEC private mode 2026 sequences the harness knows
+        let literal_brackets = on == b"\x1b[?2026h" && off == b"\x1b[?2026l";
         if stall {
             shared.pause.store(true, Ordering::SeqCst);
         }
@@ -1152,6 +1295,7 @@ mod pty {
             })
         });
         shared.pause.store(false, Ordering::SeqCst);
+        o.brackets_as_known = literal_brackets;
         o.frames_drawn = k;
         o.drops = drops;
         o.max_pending = max_pending;
@@ -1209,6 +1353,9 @@ mod pty {
         let key = format!("render {}", o.params);
         out.case(&key, o.drops > 0);
         out.hist("render:sessions");
+        if !o.brackets_as_known {
+            out.hist("render:synchronized-output-brackets-differ-from-ESC[?2026h/l(see C05)");
+        }
         out.hist(if esc { "render:size-from-escape-sequences" } else { "render:size-from-ioctl" });
         if let Some(why) = &o.inconclusive {
             let why = why.split(':').next().unwrap_or("?");
@@ -1320,7 +1467,10 @@ pub fn run_seq(ops: &[Op]) -> SeqResult {
             *failure = Some((format!("call #{i}: {what}"), exp, got));
         }
     };
-    let mut q = IOQueue::new();
+    // every entry point of the type is driven: `new` / `Default`, the inherent methods and the `Write`, `Read`,
+    // `BufRead` impls (trait-object calls included), `write` / `write_all` / `write!`; which one is a function of
+    // the position in the sequence, so that a sequence always replays the same way
+    let mut q = if ops.len() % 2 == 0 { IOQueue::new() } else { IOQueue::default() };
     let mut fifo = Fifo { buf: VecDeque::new(), marks: Vec::new() };
     let mut panicked = false;
     for (i, op) in ops.iter().enumerate() {
@@ -1334,21 +1484,60 @@ pub fn run_seq(ops: &[Op]) -> SeqResult {
         let len_before = q.len();
         let chunks_before = q.chunks_count();
         let mut read_out: Option<Vec<u8>> = None;
+        let way = (i + ops.len()) % 3;
+        let mut seen_by_consumer: Option<Vec<u8>> = None;
+        let mut fill_buf_view: Option<Vec<u8>> = None;
         let r = guarded(|| match op {
-            Op::Write(b) => {
-                let n = q.write(b).unwrap();
-                assert_eq!(n, b.len());
+            Op::Write(b) => match (way, b.is_empty()) {
+                (0, _) | (_, true) => {
+                    let n = q.write(b).unwrap();
+                    assert_eq!(n, b.len());
+                }
+                (1, _) => q.write_all(b).unwrap(),
+                _ => {
+                    // through `dyn Write`, in two pieces (the same frame: no flush in between)
+                    let w: &mut dyn Write = &mut q;
+                    let (x, y) = b.split_at(b.len() / 2);
+                    if !x.is_empty() {
+                        w.write_all(x).unwrap();
+                    }
+                    w.write_all(y).unwrap();
+                }
+            },
+            Op::Flush => {
+                if way == 2 {
+                    let w: &mut dyn Write = &mut q;
+                    w.flush().unwrap()
+                } else {
+                    q.flush().unwrap()
+                }
             }
-            Op::Flush => q.flush().unwrap(),
             Op::Read(n) => {
                 let mut buf = vec![0u8; *n];
-                let k = q.read(&mut buf).unwrap();
+                let k = if way == 2 {
+                    let r: &mut dyn Read = &mut q;
+                    r.read(&mut buf).unwrap()
+                } else {
+                    q.read(&mut buf).unwrap()
+                };
                 buf.truncate(k);
                 read_out = Some(buf);
             }
-            Op::Consume(n) => q.consume(*n),
+            Op::Consume(n) => {
+                if way == 0 {
+                    q.consume(*n)
+                } else {
+                    // the `BufRead` way: look at the buffer, then consume
+                    let b: &mut dyn std::io::BufRead = &mut q;
+                    fill_buf_view = Some(b.fill_buf().unwrap().to_vec());
+                    b.consume(*n)
+                }
+            }
             Op::ConsumeWith(k) => {
-                let r: Result<usize, ()> = q.consume_with(|_| Ok(*k));
+                let r: Result<usize, ()> = q.consume_with(|slice| {
+                    seen_by_consumer = Some(slice.to_vec());
+                    Ok(*k)
+                });
                 assert_eq!(r, Ok(*k));
             }
             Op::ConsumeWithErr => {
@@ -1361,6 +1550,14 @@ pub fn run_seq(ops: &[Op]) -> SeqResult {
             panicked = true;
             fail(&mut failure, i, "public IOQueue call panicked", "no panic".into(), format!("panic in {}", op.token()));
             break;
+        }
+        // what a consumer / a `BufRead` user is shown must be unread bytes, in order (prefix of the FIFO)
+        for (what, view) in [("consume_with showed its consumer", &seen_by_consumer), ("fill_buf returned", &fill_buf_view)] {
+            if let Some(v) = view {
+                if !(v.len() <= fifo.buf.len() && v.iter().zip(fifo.buf.iter()).all(|(a, b)| a == b)) {
+                    fail(&mut failure, i, &format!("{what} bytes that are not the next unread bytes"), "prefix of the unread bytes".into(), hex(v));
+                }
+            }
         }
         // ---- oracle: the byte FIFO ----
         match op {
@@ -1449,15 +1646,27 @@ pub fn run_seq(ops: &[Op]) -> SeqResult {
         let mut got: Vec<u8> = Vec::new();
         let mut zeros = 0usize;
         let budget = q.chunks_count() + 3;
+        let via_bufread = ops.len() % 3 == 1;
+        let expected_len = fifo.buf.len();
         let r = guarded(|| {
             let mut buf = vec![0u8; 1 << 16];
-            while zeros < budget {
-                let k = q.read(&mut buf).unwrap();
+            // (more bytes than were unread: duplicates — stop, the comparison below reports it)
+            while zeros < budget && got.len() <= expected_len {
+                let k = if via_bufread {
+                    use std::io::BufRead;
+                    let chunk = q.fill_buf().unwrap().to_vec();
+                    got.extend_from_slice(&chunk);
+                    BufRead::consume(&mut q, chunk.len());
+                    chunk.len()
+                } else {
+                    let k = q.read(&mut buf).unwrap();
+                    got.extend_from_slice(&buf[..k]);
+                    k
+                };
                 if k == 0 {
                     zeros += 1;
                 } else {
                     zeros = 0;
-                    got.extend_from_slice(&buf[..k]);
                 }
             }
         });
